@@ -1650,8 +1650,9 @@ def build_table(defined):
                                    want=lambda f: f.name in SHARED_NAMES and not any(p["ty"] == "container" for p in f.params))
     t["basicFns"] = translate_fns("primitiv/core/basic_functions.h", defined, known,
                                   want=lambda f: not any(p["ty"] in ("container", "varinit", "idsinit") for p in f.params))
+    # the forward front-ends (functions returning a Tensor) and the reset_tensor* functions they call
     t["fronts"] = translate_fns("primitiv/core/device.cc", defined, known, cls_filter="Device",
-                                want=lambda f: f.ret.split()[-1:] == ["Tensor"])
+                                want=lambda f: f.ret.split()[-1:] == ["Tensor"] or f.name.startswith("reset_tensor"))
     t["tmethods"] = translate_fns("primitiv/core/tensor.cc", defined, known, cls_filter="Tensor",
                                   want=lambda f: f.name in ("reshape", "flatten"))
     return t
